@@ -796,6 +796,12 @@ func (c *Client) Start() (addr net.Addr, err error) {
 	go func() {
 		defer c.clientWaitGroup.Done()
 		defer c.pipesWaitGroup.Done()
+		// The scanner gives up on a line longer than its token limit. Once it
+		// has stopped (and linesCh is closed), keep draining the pipe so the
+		// plugin never blocks writing to stdout.
+		defer func() {
+			_, _ = io.Copy(io.Discard, runner.Stdout())
+		}()
 		defer close(linesCh)
 
 		scanner := bufio.NewScanner(runner.Stdout())
